@@ -143,6 +143,34 @@ def literal_index_writes(fn, target_pred):
     return out
 
 
+def contains_return(n):
+    return any(x.get("kind") == "ReturnStmt" for x in walk(n))
+
+
+def unconditional_prefix(fn):
+    """a pseudo function node holding only the top-level statements of fn's body that every call executes: those before the
+    first top-level statement that branches AND can return (an early exit makes everything after it conditional);
+    branching statements themselves are left out (their writes are conditional)"""
+    body = None
+    for c in fn.get("inner", []):
+        if c.get("kind") == "CompoundStmt":
+            body = c
+    if body is None:
+        return {"inner": []}
+    keep = []
+    for st in body.get("inner", []):
+        k = st.get("kind")
+        branching = k in ("IfStmt", "ForStmt", "WhileStmt", "DoStmt", "SwitchStmt", "CXXForRangeStmt", "ConditionalOperator")
+        if branching:
+            if contains_return(st):
+                break
+            continue
+        if k == "ReturnStmt":
+            break
+        keep.append(st)
+    return {"kind": "CXXMethodDecl", "inner": [{"kind": "CompoundStmt", "inner": keep}]}
+
+
 def has_body(fn):
     return any(c.get("kind") == "CompoundStmt" for c in fn.get("inner", []) or [])
 
@@ -179,8 +207,12 @@ def describe_class(rec, extra_fns=()):
                 d["assign"] = {"implicit": True}
             else:
                 ws, rs = written_members(c, is_this)
+                u = unconditional_prefix(c)
+                uws, _ = written_members(u, is_this)
                 d["assign"] = {"implicit": False, "writes": sorted(set(ws)), "reseats": rs,
-                               "loops": loop_bounds(c, is_this), "lits": {k2: sorted(v) for k2, v in literal_index_writes(c, is_this).items()}}
+                               "loops": loop_bounds(c, is_this), "lits": {k2: sorted(v) for k2, v in literal_index_writes(c, is_this).items()},
+                               "uncond_writes": sorted(set(uws)), "uncond_loops": loop_bounds(u, is_this),
+                               "uncond_lits": {k2: sorted(v) for k2, v in literal_index_writes(u, is_this).items()}}
         if k == "CXXMethodDecl" and c.get("name") == "copy":
             # members of the local `result` that are written; the constructor call initialises centerVec, l
             ws, rs = written_members(c, is_var("result"))
